@@ -227,14 +227,12 @@ def run(tier: str, seed: int) -> Report:  # noqa: PLR0912, PLR0915
     asts2 = [v[2] for v in rexp if v[0] == "A" and v[1] == 2]
     design1 = [v[3] for v in rexp if v[0] == "A" and v[1] == 1]
     design2 = [v[3] for v in rexp if v[0] == "A" and v[1] == 2]
-    if thorough:
-        CH = 4000
-        work = [(1, asts1[i:i + CH]) for i in range(0, len(asts1), CH)] + [(2, asts2[i:i + CH]) for i in range(0, len(asts2), CH)]
-        with multiprocessing.get_context("fork").Pool(10) as pool:
-            parts = pool.map(R.run_chunk, work, chunksize=1)
-        rcases = [c for p in parts for c in p]
-    else:
-        rcases = [R.case1(a) for a in asts1] + [R.case2(a) for a in asts2]
+    # always in worker processes with a memory limit (see R.limit_worker_memory)
+    CH = 4000 if thorough else 1500
+    work = [(1, asts1[i:i + CH]) for i in range(0, len(asts1), CH)] + [(2, asts2[i:i + CH]) for i in range(0, len(asts2), CH)]
+    with multiprocessing.get_context("fork").Pool(10 if thorough else 6, initializer=R.limit_worker_memory) as pool:
+        parts = pool.map(R.run_chunk, work, chunksize=1)
+    rcases = [c for p in parts for c in p]
     for c in rcases:
         c["origin"] = "tlc-enumerated"
     # drift: design result vs the code on the plain decimal spelling (first witness)
@@ -248,10 +246,12 @@ def run(tier: str, seed: int) -> Report:  # noqa: PLR0912, PLR0915
                 rep.drift.append({"ast": c["ast"], "design": d, "code": c["outs"][0]["res"], "input": c["wit"][0]["text"]})
     rep.extra["range_asts_enumerated_by_tlc"] = {"one_dimensional": len(asts1), "two_dimensional": len(asts2)}
     rep.extra["range_spec_to_code_drift"] = ndrift
+    rep.extra["range_calls_skipped_over_misread_literals"] = "counted per worker; 0 on a conforming tree (see R.SKIPPED_MISREAD)"
 
     # seeded: more items, large values (offsets from big bases), integer literals
     seen: set[str] = set()
     nrand = 6000 if thorough else 500
+    rjobs: list[tuple[int, Any, int]] = []
     for i in range(nrand):
         base = R.BASES[i % len(R.BASES)]
         if i % 3:
@@ -260,16 +260,19 @@ def run(tier: str, seed: int) -> Report:  # noqa: PLR0912, PLR0915
             if key in seen:
                 continue
             seen.add(key)
-            c = R.case1(e, base)
+            rjobs.append((1, e, base))
         else:
             e2 = R.rand_expr2(rnd)
             key = f"2|{base}|{e2}"
             if key in seen:
                 continue
             seen.add(key)
-            c = R.case2(e2, base)
-        c["origin"] = "seeded-random"
-        rcases.append(c)
+            rjobs.append((2, e2, base))
+    with multiprocessing.get_context("fork").Pool(8, initializer=R.limit_worker_memory) as pool:
+        for part in pool.map(R.run_based_chunk, [rjobs[i:i + 100] for i in range(0, len(rjobs), 100)], chunksize=1):
+            for c in part:
+                c["origin"] = "seeded-random"
+                rcases.append(c)
     lits: list[tuple[int, list[int]]] = []
     for r in (10, 16, 8, 2):
         for n in list(range(0, 300 if thorough else 40)) + [255, 256, 65535, 65536, (1 << 31) - 1, 1 << 31, (1 << 32) - 1,
@@ -468,6 +471,9 @@ def selftest(rep: Report, rcases: list[dict[str, Any]], rv: dict[int, tuple[str,
     bad: list[dict[str, Any]] = []
     c = first(rcases, rv, lambda c: c["kind"] == "r1" and c["outs"][0]["res"].get("v") and len(c["outs"][0]["res"]["v"]) >= 2)
     if c is None:
+        if rep.violations:
+            rep.extra["binding_selftest"] = "skipped: the tree under test leaves no accepted range case"
+            return
         raise Machinery("no accepted range case to corrupt")
     c["outs"][0]["res"]["v"] = c["outs"][0]["res"]["v"][:-1]
     bad.append(c)
